@@ -285,7 +285,8 @@ def converted_call(f, args, kwargs, caller_fn_scope=None, options=None):
     return _call_unconverted(f, args, kwargs, options)
 
   # If this is a partial, unwrap it and redo all the checks.
-  if isinstance(f, functools.partial):
+  if (isinstance(f, functools.partial) and
+      type(f).__call__ is functools.partial.__call__):
     new_kwargs = {}
     if f.keywords is not None:
       # Use copy to avoid mutating the underlying keywords.
